@@ -10,7 +10,7 @@
 use super::h_traffic::short_id;
 use super::hworld::*;
 use crate::core::{Ctx, Tier};
-use discv5::verif::{toolkit, HandlerIn, HandlerOut, Message, NodeAddress, PacketKind, Request, RequestBody, Response, WhoAreYouRef};
+use discv5::verif::{toolkit, HandlerIn, HandlerOut, Message, NodeAddress, PacketKind, Request, RequestBody, Response, ResponseBody, WhoAreYouRef};
 use discv5::Enr;
 use std::net::SocketAddr;
 
@@ -106,7 +106,14 @@ async fn run_async(ctx: &mut Ctx, enumerate: bool) {
     } else {
         (ctx.tape.choose(BASES as u32) as u64, None, 0)
     };
+    let mut handmade = 0u32;
     let corrupt_pct = if enumerate { 0 } else { *ctx.tape.pick(&[5u32, 15, 40]) };
+    // explored runs: the total a responder announces in its NODES packets is sometimes not the number it sends
+    // (the peer may write whatever it likes there; what is delivered must still be what it encrypted)
+    let announced_total: Option<u64> = if enumerate { None } else { *ctx.tape.pick(&[None, None, None, Some(3u64), Some(16), Some(40), Some(u64::MAX)]) };
+    if announced_total.is_some() {
+        ctx.count("runs_with_odd_nodes_total");
+    }
     if !enumerate {
         w.profile.jitter_ms = *ctx.tape.pick(&[0u32, 3]);
         w.profile.dup_pct = *ctx.tape.pick(&[0u32, 10]);
@@ -388,7 +395,43 @@ async fn run_async(ctx: &mut Ctx, enumerate: bool) {
                         ctx.ev(format!("t={t} n{node} out Request({}) from {} @ {}", req.body, short_id(&from.node_id), from.socket_addr));
                         check_delivery(ctx, &w, &session_addr, node, &from, Message::Request((*req).clone()));
                         let total = if matches!(&req.body, RequestBody::FindNode { distances } if distances.as_slice() != [0]) { 2 } else { 1 };
-                        for resp in w.default_response(node, &from, &req, total) {
+                        // explored runs: a peer that writes its own plaintext (nothing obliges a peer to use this crate's
+                        // encoder). It seals, under its genuine session keys, a NODES answer in which one of three records
+                        // is damaged (a bit of its signature): whatever the receiver does with such a message, it must not
+                        // hand its application a message the peer did not encrypt.
+                        let is_find = matches!(&req.body, RequestBody::FindNode { distances } if distances.as_slice() != [0]);
+                        if !enumerate && is_find && ctx.tape.choose(4) == 0 {
+                            let recs: Vec<Enr> = (0..3).map(|i| w.nodes[(node + i) % 3].enr.clone()).collect();
+                            let bad = ctx.tape.choose(3) as usize;
+                            let mut pt = Message::Response(Response { id: req.id.clone(), body: ResponseBody::Nodes { total: 1, nodes: recs.clone() } }).encode();
+                            let sig = recs[bad].signature().to_vec();
+                            let key = w.keylog.iter().rev().find(|(_, k)| k.local == w.nodes[node].id && k.remote == from.node_id).map(|(_, k)| k.encryption_key);
+                            let pos = pt.windows(sig.len()).position(|x| x == &sig[..]);
+                            if let (Some(pos), Some(key), Some(to)) = (pos, key, w.node_by_id(&from.node_id)) {
+                                pt[pos + 5] ^= 0x10;
+                                handmade += 1;
+                                let kind = PacketKind::Message { src_id: w.nodes[node].id };
+                                let mut nonce = [0xc7u8; 12];
+                                nonce[0] = handmade as u8;
+                                let iv = 0x5151_0000_0000_0000_0000_0000_0000_0000u128 + handmade as u128;
+                                let aad = toolkit::authenticated_data(iv, nonce, kind.clone());
+                                if let Some(ct) = toolkit::encrypt(&key, nonce, &pt, &aad) {
+                                    let bytes = toolkit::encode_packet(iv, nonce, kind, ct, &w.nodes[to].id);
+                                    ctx.fault("peer_seals_handmade_plaintext_with_damaged_record");
+                                    ctx.ev(format!("t={t} n{node} seals a hand-made NODES answer (record {bad} of 3 damaged) for n{to}"));
+                                    let out = (from.socket_addr, w.nodes[to].id, bytes);
+                                    let wi = w.tap(ctx, node, &out);
+                                    w.route(ctx, wi);
+                                    continue;
+                                }
+                            }
+                        }
+                        for mut resp in w.default_response(node, &from, &req, total) {
+                            if let (Some(t), ResponseBody::Nodes { total, .. }) = (announced_total, &mut resp.body) {
+                                if *total > 1 {
+                                    *total = t;
+                                }
+                            }
                             w.schedule(0, Ev::Custom(X::AppRespond { node, to: from.clone(), resp }));
                         }
                     }
